@@ -45,8 +45,8 @@ Print Assumptions C03_truncated.
 
 (* Unbuffered, the same holds for every script whatsoever (also one that breaks the
    zero-length-read limit): the run follows the specification run until it stops
-   with an error. (Buffered, a script with 16 or more consecutive (0,nil) reads makes
-   jsonReadNum end a number early before io.ErrNoProgress surfaces: outside the contract.) *)
+   with an error. (Buffered, the same is proved only under the contract, see C03_truncated: the
+   buffered invariants are stated for abiding scripts.) *)
 Theorem C03_truncated_unbuffered_any_script : forall (c : cfg) (d : list N) (sc : list resp) (f : ek) (ops : list rop),
   bufsize c = 0 -> f = KEof \/ f = KHard -> respects false (sinit d) ops = true ->
   agree (run_io c (init c d sc f) ops) (run_spec (sinit d) ops).
